@@ -40,8 +40,9 @@ def Table.hit (t : Table) (v : List Int) : Option Nat :=
       | some r => zeroImp r.1 == key
       | none => false)
 
-/-- `EagerEncoder.get_matrix` (after the direct-hit repair: the *stored* design vector of the hit row
-    is returned, so inactive positions are marked −1 on every path).
+/-- `EagerEncoder.get_matrix` **as the repair would make it** (reference semantics): the *stored*
+    design vector of the hit row is returned, so inactive positions are marked −1 on every path. The
+    code as it is today is `eagerGetImpl` below; they differ only in the −1 marks on a direct hit.
     `t = none`: the pattern is unknown to the encoder (all inactive, no matrix).
     Returns the design vector with −1 marks (length = length of the input) and the row index. -/
 def eagerGet (t : Option Table) (nOpts : List Nat) (imp : List Int → Nat) (x : List Int) :
@@ -68,6 +69,35 @@ def correctIsActive (dv : List Int) : List Int × List Bool :=
 def managerGet (t : Option Table) (nOpts : List Nat) (imp : List Int → Nat) (x : List Int) :
     List Int × List Bool × Option Matrix :=
   let (dv, i) := eagerGet t nOpts imp x
+  let (v, act) := correctIsActive dv
+  (v, act, match t, i with
+    | some t, some i => (t[i]?).map (·.2)
+    | _, _ => none)
+
+/-- `EagerEncoder.get_matrix` **as implemented**: on a direct hit the (clamped) *input* vector is
+    returned and only the positions beyond the pattern's own variables are marked −1
+    (`_correct_vector`); variables that the stored design vector marks inactive therefore come back
+    as value 0 / active (known finding KF-C10-eager-direct-hit-activeness). -/
+def eagerGetImpl (t : Option Table) (nOpts : List Nat) (imp : List Int → Nat) (x : List Int) :
+    List Int × Option Nat :=
+  let nDv := nOpts.length
+  let extra := List.replicate (x.length - nDv) (-1 : Int)
+  let v := clampVec nOpts x
+  match t with
+  | none => (List.replicate v.length (-1) ++ extra, none)
+  | some t =>
+    match t.hit v with
+    | some i => (v.take t.width ++ List.replicate (v.length - t.width) (-1) ++ extra, some i)
+    | none =>
+      if t.isEmpty then (List.replicate v.length (-1) ++ extra, none)
+      else
+        let i := imp v
+        (padTo v.length ((t.getD i ([], [])).1) ++ extra, some i)
+
+/-- `AssignmentManager.get_matrix` as implemented. -/
+def managerGetImpl (t : Option Table) (nOpts : List Nat) (imp : List Int → Nat) (x : List Int) :
+    List Int × List Bool × Option Matrix :=
+  let (dv, i) := eagerGetImpl t nOpts imp x
   let (v, act) := correctIsActive dv
   (v, act, match t, i with
     | some t, some i => (t[i]?).map (·.2)
